@@ -223,6 +223,7 @@ class Interp:
         self.pipes = PipeTable(self)
         self.pointwise = 0
         self.merge_ifs = 0
+        self.guards = []            # conditions of the merged branches / short-circuit operands being evaluated (per-element evaluation)
         self.merge_depth = 0         # > 0 inside a branch of a merged if
         self.recording = None        # list of (XList, value) appends recorded during the per-element evaluation of an effect loop
         self.body_lists = set()      # ids of the Python lists created inside the body being evaluated per element
@@ -660,13 +661,21 @@ class Interp:
             # value each -- the recorded value is then the merged one
             if rec is not None:
                 self.recording = []
-            self.exec_block(st.body, env)
+            self.guards.append(cond)
+            try:
+                self.exec_block(st.body, env)
+            finally:
+                self.guards.pop()
             then_vars, then_rec = dict(env.vars), self.recording
             env.vars.clear()
             env.vars.update(base)
             if rec is not None:
                 self.recording = []
-            self.exec_block(st.orelse, env)
+            self.guards.append(_not(cond))
+            try:
+                self.exec_block(st.orelse, env)
+            finally:
+                self.guards.pop()
             else_vars, else_rec = dict(env.vars), self.recording
         except (PyRaise, _Return, _Break, _Continue):
             raise Unsupported('raise / return / break inside a branch of a per-element (merged) evaluation')
@@ -1259,7 +1268,12 @@ class Interp:
                     # combined as truth values
                     acc = t
                     for e2 in node.values[i + 1:]:
-                        t2 = self.truth(self.ev(e2, env))
+                        # (Python evaluates this operand only when the ones before it did not decide: that is its guard)
+                        self.guards.append(acc if is_and else _not(acc))
+                        try:
+                            t2 = self.truth(self.ev(e2, env))
+                        finally:
+                            self.guards.pop()
                         acc = _and(acc, t2) if is_and else _or(acc, t2)
                     return acc
                 if is_and and not t:
@@ -1633,6 +1647,19 @@ class Interp:
             if attr in obj.fields:
                 return obj.fields[attr]
             if getattr(obj, 'cls_alt', None):
+                # a method of an object whose class is one of several: supported when exactly one definition is found among the
+                # alternatives; for every alternative that lacks it, reaching this call would be an AttributeError -- it must be
+                # excluded by the conditions under which the call is evaluated (isinstance tests of the enclosing branches)
+                found = [(c, g_, c.find_method(attr)) for c, g_ in obj.cls_alt]
+                defs = {id(m.node): m for _, _, m in found if m is not None}
+                if len(defs) == 1:
+                    (m,) = defs.values()
+                    if m.kind not in ('property', 'classmethod', 'staticmethod'):
+                        for c, g_, mm in found:
+                            if mm is None:
+                                self.oblige_with(list(self.guards), 'safe', 'no-AttributeError', _not(g_),
+                                                 note=f'{attr}() on an object that may be a {c.name}')
+                        return BoundMethod(m, obj)
                 raise Unsupported(f'attribute {attr} of an object whose class is symbolic (only its fields are known)')
             m = obj.cls.find_method(attr)
             if m is not None:
